@@ -50,7 +50,18 @@ DEEP = universes.Universe(
     },
     sources=[[("tmp/m0.py", "m0")]],
 )
-PROGRAMS = {"U1": universes.ALL["U1"], "U3": universes.ALL["U3"], "W6": WIDE, "D6": DEEP}
+# several INDEPENDENT stale leaves with otherwise-fresh dependents (more ready SCCs than workers, so the
+# coordinator's queue is non-empty while responses arrive)
+PAIRS = universes.Universe(
+    name="P7-pairs",
+    files={
+        "tmp/r.py": ["import s0, s1, s2\nx: int = s0.f() + s1.f() + s2.f()\n"],
+        **{f"tmp/s{i}.py": [f"import d{i}\ndef f() -> int:\n    return d{i}.g()\n"] for i in range(3)},
+        **{f"tmp/d{i}.py": ["def g() -> int:\n    return 1\n", "def g() -> str:\n    return ''\n"] for i in range(3)},
+    },
+    sources=[[("tmp/r.py", "r")]],
+)
+PROGRAMS = {"U1": universes.ALL["U1"], "U3": universes.ALL["U3"], "W6": WIDE, "D6": DEEP, "P7": PAIRS}
 
 
 def file_map(u, vm: dict[str, int]) -> dict:
@@ -245,39 +256,50 @@ def explore_program(job: dict) -> dict:
 
 
 def make_jobs(ctx: Ctx) -> list[dict]:
-    jobs = []
+    """(program, N, scenario, deviation bound) instances.  Warm scenarios edit an interface in the deepest
+    dependency (its dependents are otherwise fresh) and always validate the cache the schedule leaves behind
+    against every follow-up edit."""
+    primary = {"U1": {"tmp/d.py": 1}, "U3": {"tmp/b.py": 2}, "W6": {"tmp/base.py": 1}, "D6": {"tmp/m5.py": 1},
+               "P7": {f"tmp/d{i}.py": 1 for i in range(3)}}  # P7: all leaves at once (several ready stale SCCs)
+    jobs: list[dict] = []
+
+    def add(p: str, n: int, scenario: str, bound: int, store: str = "fs", edit: dict | None = None,
+            followups: bool | None = None) -> None:
+        jobs.append({"program": p, "n": n, "bound": bound, "scenario": scenario, "store": store,
+                     "edit": (edit if edit is not None else primary[p]) if scenario == "warm" else None,
+                     "max_exec": 600 if ctx.quick else 3000,
+                     "followups": (scenario == "warm") if followups is None else followups})
+
     if ctx.quick:
-        plan = [("U1", [2], 2), ("U1", [3], 1), ("U3", [2], 1), ("W6", [2], 1)]
+        add("U1", 2, "cold", 1)
+        add("U1", 2, "warm", 1)
+        add("U1", 2, "cold", 1, store="sqlite")
+        add("U1", 3, "warm", 1)
+        add("U3", 2, "cold", 1)
+        add("U3", 2, "warm", 1)
+        add("W6", 2, "warm", 1)
+        add("P7", 2, "warm", 1)
     else:
-        plan = [("U1", [1, 2, 3, 4], 3), ("U3", [1, 2, 3], 3), ("W6", [2, 3, 4], 2), ("D6", [2, 3], 2)]
-    for pname, ns, bound in plan:
-        u = PROGRAMS[pname]
-        edits: list[dict | None] = [None]
-        # warm scenarios: one interface-changing edit per program (first non-initial variant of the deepest file)
-        for p in u.paths():
-            if len(u.files[p]) > 1 and u.files[p][1] is not None:
-                edits.append({p: 1})
-        for n in ns:
-            jobs.append({"program": pname, "n": n, "bound": bound, "scenario": "cold", "store": "fs",
-                         "max_exec": 400 if ctx.quick else 3000, "followups": ctx.thorough})
-            warm_edits = edits[1:2] if ctx.quick else edits[1:]
-            for e in warm_edits:
-                jobs.append({"program": pname, "n": n, "bound": bound if ctx.thorough else 1, "scenario": "warm",
-                             "edit": e, "store": "fs", "max_exec": 200 if ctx.quick else 3000,
-                             "followups": ctx.thorough})
-        if ctx.thorough or pname == "U1":
-            jobs.append({"program": pname, "n": 2, "bound": 1 if ctx.quick else 2, "scenario": "cold", "store": "sqlite",
-                         "max_exec": 200 if ctx.quick else 3000, "followups": False})
-    if ctx.thorough:
-        jobs.append({"program": "W6", "n": 8, "bound": 0, "scenario": "cold", "store": "fs", "max_exec": 5,
-                     "followups": False})
-    uniq, seen = [], set()
-    for j in jobs:
-        k = repr(sorted(j.items(), key=lambda kv: kv[0]))
-        if k not in seen:
-            seen.add(k)
-            uniq.append(j)
-    return seeded_order(uniq, ctx.seed)
+        add("U1", 2, "cold", 2, followups=True)
+        add("U1", 2, "warm", 2)
+        for n in (1, 3, 4):
+            add("U1", n, "cold", 1)
+            add("U1", n, "warm", 1)
+        for e in ({"tmp/a.py": 1}, {"tmp/b.py": 1}, {"tmp/c.py": 1}):
+            add("U1", 2, "warm", 1, edit=e)
+        add("U3", 2, "cold", 2)
+        add("U3", 3, "cold", 1)
+        add("U3", 2, "warm", 1)
+        add("U3", 3, "warm", 1)
+        for p in ("W6", "D6", "P7"):
+            for n in (2, 3):
+                add(p, n, "cold", 1)
+                add(p, n, "warm", 1)
+        add("U1", 2, "cold", 1, store="sqlite", followups=True)
+        add("U1", 2, "warm", 1, store="sqlite")
+        add("P7", 2, "warm", 1, store="sqlite")
+        add("W6", 8, "cold", 0)
+    return seeded_order(jobs, ctx.seed)
 
 
 def run(ctx: Ctx, jobs: list[dict] | None = None) -> Result:
